@@ -228,11 +228,133 @@ def run_shard(ctx):  # noqa: C901, PLR0912, PLR0915
                 flush()
 
     try:
+        load_histories(ctx, 4 if ctx.tier == 'quick' else 5)
         e1.drive(ctx, ctx.tier, per_case, profile='tiny' if ctx.tier == 'quick' else 'small', cfgs=cfgs)
         flush()
     finally:
         for ld in loaders.values():
             ld.close()
+
+
+# ---- in-process load histories (registry changes BETWEEN loads of the same pickle) --------------------
+class HX:
+    """Custom node class for the load histories (module level so that it can be pickled by reference)."""
+
+    def __init__(self, children, meta='m'):
+        self.children = list(children)
+        self.meta = meta
+
+
+def hx_flatten_v1(o):
+    return list(o.children), ('v1', o.meta), tuple(f'k{i}' for i in range(len(o.children)))
+
+
+def hx_unflatten_v1(meta, children):
+    out = HX(children, meta[1])
+    out.via = 'v1'
+    return out
+
+
+def hx_flatten_v2(o):  # other function objects, same flatten output (the pickle stays comparable)
+    return list(o.children), ('v1', o.meta), tuple(f'k{i}' for i in range(len(o.children)))
+
+
+def hx_unflatten_v2(meta, children):
+    out = HX(children, meta[1])
+    out.via = 'v2'
+    return out
+
+
+LOAD_EVENTS = ('load', 'load-keep', 'drop-kept', 'unregister', 'register-v1', 'register-v2')
+
+
+def load_history(ctx, hist):
+    """One history over LOAD_EVENTS on a fresh registration of HX in namespace 'ns11'; the pickles were made
+    under registration v1.  After every 'load*' event: if HX is not registered, loading must raise; otherwise
+    the loaded treespec must equal (==, hash, repr, paths) a treespec flattened afresh NOW and unflatten
+    through the CURRENT functions."""
+    import gc  # noqa: PLC0415
+
+    import optree  # noqa: PLC0415
+
+    from mc.universe import Leaf  # noqa: PLC0415
+
+    NSH = 'ns11'
+    optree.register_pytree_node(HX, hx_flatten_v1, hx_unflatten_v1, namespace=NSH)
+    state = 'v1'
+    kept = []
+    try:
+        tree = [HX([Leaf(0), (Leaf(1),)]), {'b': HX([Leaf(2)], 'mm'), 'a': Leaf(3)}]
+        spec0 = optree.tree_structure(tree, namespace=NSH)
+        blobs = [pickle.dumps(spec0, protocol=p) for p in (2, 5)]
+        del spec0
+        for step, ev in enumerate(hist):
+            if ev == 'unregister':
+                if state != 'none':
+                    optree.unregister_pytree_node(HX, namespace=NSH)
+                    state = 'none'
+            elif ev in ('register-v1', 'register-v2'):
+                if state == 'none':
+                    v = ev[-2:]
+                    fl, un_ = (hx_flatten_v1, hx_unflatten_v1) if v == 'v1' else (hx_flatten_v2, hx_unflatten_v2)
+                    optree.register_pytree_node(HX, fl, un_, namespace=NSH)
+                    state = v
+            elif ev == 'drop-kept':
+                del kept[:]
+                gc.collect()
+            else:
+                for blob in blobs:
+                    ctx.count()
+                    r = outcome_of(lambda blob=blob: pickle.loads(blob))  # noqa: S301
+                    case = {'load_history': list(hist), 'step': step}
+                    if state == 'none':
+                        if r[0] != 'exc':
+                            ctx.violation('load-history:unregistered-type-loaded', f'{PROP}:load-history', case,
+                                          f'HX is not registered but loading returned {r[1]!r}')
+                        continue
+                    if r[0] != 'ok':
+                        ctx.violation('load-history:load-raises', f'{PROP}:load-history', case, repr(r))
+                        continue
+                    got = r[1]
+                    leaves, fresh = optree.tree_flatten(tree, namespace=NSH)
+                    problems = []
+                    if got != fresh or hash(got) != hash(fresh) or repr(got) != repr(fresh) or got.paths() != fresh.paths():
+                        problems.append(f'loaded {got!r} vs fresh {fresh!r}')
+                    rebuilt = outcome_of(lambda: got.unflatten(leaves))
+                    if rebuilt[0] != 'ok' or optree.tree_leaves(rebuilt[1], namespace=NSH) != leaves:
+                        problems.append(f'unflatten -> {rebuilt!r}')
+                    elif getattr(rebuilt[1][0], 'via', None) != state:
+                        problems.append(f'unflatten went through the {getattr(rebuilt[1][0], "via", None)} function, '
+                                        f'current registration is {state}')
+                    if problems:
+                        ctx.violation('load-history:stale-binding', f'{PROP}:load-history', case,
+                                      f'registration now {state}: ' + '; '.join(problems)[:500])
+                    if ev == 'load-keep':
+                        kept.append(got)
+        ctx.outcome('load-history')
+    finally:
+        del kept[:]
+        if state != 'none':
+            optree.unregister_pytree_node(HX, namespace=NSH)
+
+
+def load_histories(ctx, max_len):
+    import itertools  # noqa: PLC0415
+
+    idx = 0
+    for n in range(1, max_len + 1):
+        for hist in itertools.product(LOAD_EVENTS, repeat=n):
+            if not any(e.startswith('load') for e in hist):
+                continue
+            idx += 1
+            if not ctx.mine(idx):
+                continue
+            ctx.cls(('load-history', hist))
+            load_history(ctx, hist)
+    ctx.extra['load-histories'] += idx
+
+
+from mc.e1 import outcome_of  # noqa: E402
 
 
 def _in_mode(mode, fn):
